@@ -92,3 +92,61 @@ def bounded_below(F, body, bb, op, limit, depth=0):
                 reasons.append("%s: %s" % (cb.path.rsplit("::", 2)[-1], why))
         return True, "bounded at every call site: " + "; ".join(reasons)
     return False, "no constant, dominating guard or bounded call sites found (origins: %s)" % ", ".join(sorted(tr.describe(o) for o in origins))
+
+
+def values_reaching(body, start_bb, value_op_origins, target_bb, candidates):
+    """Which concrete values of one integer quantity (identified by the tracer origins of an operand) allow
+    control to flow from start_bb to target_bb? Switches on the quantity itself or on a comparison of it with
+    a constant are resolved for each candidate value; every other switch is followed on all edges.
+    (A small, exact decision-tree evaluation over the CFG - no program execution.)"""
+    tr = tracer(body)
+    ok = set()
+
+    def same(op):
+        return tr.operand(op) == value_op_origins
+
+    for n in candidates:
+        seen = set()
+        work = [start_bb]
+        reached = False
+        while work:
+            bb = work.pop()
+            if bb in seen:
+                continue
+            seen.add(bb)
+            if bb == target_bb:
+                reached = True
+                break
+            t = body.blocks[bb].term
+            succs = body.succ[bb]
+            if t["t"] == "switch":
+                d = t["discr"]
+                feas = None
+                if same(d):
+                    listed = [v for v, _ in t["targets"]]
+                    feas = [tb for (tb, lab) in succs if lab == n]
+                    if not feas and n not in listed:
+                        feas = [tb for (tb, lab) in succs if lab == "otherwise"]
+                else:
+                    from flow import switch_cond
+                    c = switch_cond(body, bb)
+                    if c and c["kind"] == "cmp":
+                        a, b = c["a"], c["b"]
+                        va = n if same(a) else const_value(body, a)
+                        vb = n if same(b) else const_value(body, b)
+                        if va is not None and vb is not None and (same(a) or same(b)):
+                            res = {"<": va < vb, "<=": va <= vb, ">": va > vb, ">=": va >= vb, "==": va == vb, "!=": va != vb}[c["rel"]]
+                            if c.get("neg"):
+                                res = not res
+                            want = 1 if res else 0
+                            listed = [v for v, _ in t["targets"]]
+                            feas = [tb for (tb, lab) in succs if lab == want]
+                            if not feas and want not in listed:
+                                feas = [tb for (tb, lab) in succs if lab == "otherwise"]
+                if feas is not None:
+                    work.extend(feas)
+                    continue
+            work.extend(tb for (tb, lab) in succs)
+        if reached:
+            ok.add(n)
+    return ok
